@@ -6,4 +6,6 @@ CONSTANTS
   AllLines = TRUE
 INVARIANT Emit
 INVARIANT DesignReconstructs
+INVARIANT DesignReconstructsRun
+INVARIANT OldImplBreaksOnStale
 CHECK_DEADLOCK FALSE
